@@ -94,7 +94,7 @@ URL_IN_HTML_BINARY = URL_IN_HTML.encode()
 URL_IN_HTML_RE = re.compile(URL_IN_HTML, re.I | re.A)
 URL_IN_HTML_BINARY_RE = re.compile(URL_IN_HTML_BINARY, re.I)
 
-QUERY_VALUE_IN_URL_TEMPLATE = r"(?:^|[?&])(%s)=([^&]+)"
+QUERY_VALUE_IN_URL_TEMPLATE = r"(?:^|[?&])(%s)=([^&#]+)"
 QUERY_VALUE_TEMPLATE = r"%s=([^&#]+)"
 
 # NOTE: the userinfo cannot span over a path, and the hostname ends at the port
